@@ -1,6 +1,7 @@
 package rules
 
 import (
+	"go/types"
 	"go/constant"
 	"go/token"
 	"strings"
@@ -29,6 +30,7 @@ func c06(w *core.World, r *core.Report) {
 	r.Rule("R06.3", "PSYNC argument choice and cache clearing on every successful path of syncMeta", 3)
 	r.Rule("R06.4", "reader start / writer offset / snapshot size definitions on every successful path of syncMeta", 2)
 	r.Rule("R06.6", "one id for cache and bookkeeping; CONTINUE keeps the source's current id", 2)
+	r.Rule("R06.10", "a full resynchronisation does not carry the target's old position over to the new replication id", 2)
 	ruleSyncMetaPaths(w, r)
 
 	r.Rule("R06.5", "the values syncMeta returns reach the writer and the reader unchanged", 2)
@@ -42,6 +44,7 @@ func c06(w *core.World, r *core.Report) {
 
 	r.Rule("R06.9", "the in-memory resume position gets a run id only together with the offset that belongs to it", 1)
 	ruleInMemResumePoint(w, r)
+
 }
 
 func rulePsyncWire(w *core.World, r *core.Report) {
@@ -226,7 +229,8 @@ func ruleSyncMetaPaths(w *core.World, r *core.Report) {
 		pos token.Pos
 		n   int
 	}
-	v := map[string]*verdict{"psync-argument": {}, "cache-cleared": {}, "full-definitions": {}, "partial-definitions": {}, "one-id": {}, "continue-id": {}}
+	v := map[string]*verdict{"psync-argument": {}, "cache-cleared": {}, "full-definitions": {}, "partial-definitions": {}, "one-id": {}, "continue-id": {}, "position-dropped": {}}
+	dropMethods := map[string]bool{}
 	fail := func(k, msg string, pos token.Pos) {
 		if v[k].bad == "" {
 			v[k].bad, v[k].pos = msg, pos
@@ -321,6 +325,58 @@ func ruleSyncMetaPaths(w *core.World, r *core.Report) {
 			d, s := idx("DelRunId"), idx("SetRunId")
 			if d < 0 || s < 0 || d > s {
 				fail("cache-cleared", "a full resynchronisation re-keys the cache without clearing it first: the new snapshot would join old log segments", ret.Pos())
+			}
+		}
+		// ---- a full resynchronisation under another id does not inherit the target's old position:
+		// before the output is re-keyed, it is told to drop what it holds
+		// the request is optional in the interface (a type assertion): for the production output the
+		// "does not implement it" outcome is impossible exactly when *RedisOutput has the method
+		notProduction := false
+		for _, in := range p.Instrs {
+			ta, isTA := in.(*ssa.TypeAssert)
+			if !isTA || !ta.CommaOk || fieldNameOfLoad(core.Unwrap(ta.X)) != "output" {
+				continue
+			}
+			if pathAssumed(p, func(x ssa.Value) bool {
+				e, ok := core.Unwrap(x).(*ssa.Extract)
+				return ok && e.Index == 1 && e.Tuple == ssa.Value(ta)
+			}, false) {
+				if ro := w.Pkg("syncer"); ro != nil {
+					if obj := ro.Types.Scope().Lookup("RedisOutput"); obj != nil {
+						if it, isI := ta.AssertedType.Underlying().(*types.Interface); isI && types.Implements(types.NewPointer(obj.Type()), it) {
+							notProduction = true
+						}
+					}
+				}
+			}
+		}
+		if full && !notProduction {
+			v["position-dropped"].n++
+			setIdx, dropIdx := -1, -1
+			for i, s := range sites {
+				if !s.Common().IsInvoke() {
+					continue
+				}
+				if s.Method == "SetRunId" && strings.HasSuffix(core.TypeName(s.Common().Value.Type()), "syncer.Output") {
+					if setIdx < 0 {
+						setIdx = i
+					}
+					continue
+				}
+				// a method of the output reached through a type assertion of the output field
+				recv := core.Unwrap(p.Resolve(s.Common().Value))
+				if ex, isEx := recv.(*ssa.Extract); isEx {
+					recv = ex.Tuple
+				}
+				if ta, isTA := recv.(*ssa.TypeAssert); isTA && fieldNameOfLoad(core.Unwrap(ta.X)) == "output" && s.Method != "StartPoint" {
+					if dropIdx < 0 {
+						dropIdx = i
+						dropMethods[s.Method] = true
+					}
+				}
+			}
+			if setIdx < 0 || dropIdx < 0 || dropIdx > setIdx {
+				fail("position-dropped", "on a full resynchronisation the output is re-keyed to the new replication id without first being told to drop the position it holds: re-keying copies the old offset to the new id, and until the snapshot has been replayed a restart asks the source to continue the new history from that foreign offset", ret.Pos())
 			}
 		}
 		// ---- final definitions
@@ -469,6 +525,55 @@ func ruleSyncMetaPaths(w *core.World, r *core.Report) {
 	emit("R06.4", "partial-definitions", "syncMeta/continuation-definitions")
 	emit("R06.6", "one-id", "syncMeta/one-id")
 	emit("R06.6", "continue-id", "syncMeta/continue-keeps-current-id")
+	emit("R06.10", "position-dropped", "syncMeta/full-sync-drops-position")
+	// what the output does when told so: the "none yet" marker under the id it currently has
+	r.Rule("R06.10", "", 0)
+	for m := range dropMethods {
+		g := w.Func("(*syncer.RedisOutput)." + m)
+		if g == nil {
+			r.Unresolved("RedisOutput."+m, "the output's method %s called by syncMeta before re-keying was not found", m)
+			continue
+		}
+		bad := ""
+		var pos token.Pos = g.Pos()
+		n := 0
+		isCurID := func(x ssa.Value) bool { return fieldNameOfLoad(core.Unwrap(x)) == "RunId" }
+		okEnum := core.EnumPathsN(g.Blocks[0], 0, 20000, core.Unroll, func(p *core.Path) {
+			ret, ok := p.End.(*ssa.Return)
+			if !ok || ret.Parent() != g || bad != "" {
+				return
+			}
+			n++
+			for _, s := range pathSites(p) {
+				if s.Name == "(*syncer.RedisOutput).setCheckpoint" {
+					a := s.Args()
+					k, isK := core.ConstInt(core.Unwrap(a[2]))
+					if len(a) >= 3 && isK && k < 0 && isCurID(p.Resolve(a[1])) {
+						return
+					}
+					bad, pos = "the position is not replaced by the 'none yet' marker (a negative offset) under the run id the output currently has", s.Pos()
+					return
+				}
+			}
+			// nothing written: only when there is nothing to carry over (no id yet, or the id does not change)
+			for _, fct := range p.Conds {
+				c, ok := core.FactCmp(fct)
+				if !ok || c.Op != token.EQL {
+					continue
+				}
+				x, y := p.Resolve(c.X), p.Resolve(c.Y)
+				if isCurID(x) || isCurID(y) {
+					return
+				}
+			}
+			bad, pos = "the method returns without dropping the stored position on a path that did not establish that the run id is empty or unchanged", ret.Pos()
+		})
+		if !okEnum {
+			r.Undecided("RedisOutput."+m+"/drops-position", g.Pos(), "too many paths")
+		} else {
+			r.Check(bad == "" && n > 0, "RedisOutput."+m+"/drops-position", pos, "%s", bad)
+		}
+	}
 	// the clearLocal flag: DelRunId guarded by isFullSync || clearLocal, nothing else
 	r.Rule("R06.3", "", 3)
 	n := 0
